@@ -56,7 +56,7 @@ func (c *Ctx) stockSharedTypes(exclude map[string]bool) []string {
 
 func runC19(c *Ctx) {
 	p, r := c.P, c.R
-	r.Explanation = "Decides the data-race clause of C19 structurally for every stock node type (all implementations of eventlogger.Node in the 7 packages, every struct with a mutex, and Event): the pairwise consistent-lock-set discipline over all their fields on all paths; confinement of the per-call scratch types tMap/trackedMaps; that a shared *Event received by Process is never handed whole to a reflective reader outside package eventlogger (which cannot take the unexported Event.l guarding Event.Formatted); that sink writes happen with the sink mutex held; and lock pairing. Races inside user payloads or third-party code, and 'corrupted output' as such, are not decided. C19.globals: no mutable package-level state; C19.table: bytes handed out by Event.Format are never rewritten in place. C19.table reads-format-table: only sinks read the shared format table. C19.rotation: the per-event key-material rules of C16.event under C19. C19.nocopy: no by-value copy of a type that contains a sync primitive. C19.lazyinit: lazily initialised fields of gated.Filter are never reset to nil."
+	r.Explanation = "Decides the data-race clause of C19 structurally for every stock node type (all implementations of eventlogger.Node in the 7 packages, every struct with a mutex, and Event): the pairwise consistent-lock-set discipline over all their fields on all paths; confinement of the per-call scratch types tMap/trackedMaps; that a shared *Event received by Process is never handed whole to a reflective reader outside package eventlogger (which cannot take the unexported Event.l guarding Event.Formatted); that sink writes happen with the sink mutex held; and lock pairing. Races inside user payloads or third-party code, and 'corrupted output' as such, are not decided. C19.globals: no mutable package-level state; C19.table: bytes handed out by Event.Format are never rewritten in place. C19.table reads-format-table: only sinks read the shared format table. C19.rotation: the per-event key-material rules of C16.event under C19. C19.nocopy: no by-value copy of a type that contains a sync primitive. C19.lazyinit: lazily initialised fields of gated.Filter are never reset to nil. C19.stamp: rotation stamps are read under the sink's lock."
 	r.NotDecided = []string{"races inside user payloads and third-party libraries", "crash freedom", "output integrity beyond write-under-lock"}
 	c.lockControls()
 
@@ -81,6 +81,9 @@ func runC19(c *Ctx) {
 	c.ruleEventKeyMaterial("C19.rotation")
 	c.ruleNoLockCopy("C19.nocopy")
 	c.ruleLazyInitMonotone("C19.lazyinit", PkgGated, "gated.Filter")
+	// concurrent Sends through one rotating sink: the stamps that order its files are read from the clock
+	// under the sink's lock (C08.names rotate:stamp-under-lock under C19)
+	c.ruleRenameTarget("C19.stamp")
 
 	// C19.confined
 	scratch := map[string]bool{"encrypt.tMap": true, "encrypt.trackedMaps": true}
